@@ -103,8 +103,22 @@ var isValidDesktopFileLine = regexp.MustCompile(strings.Join([]string{
 	"^TargetEnvironment=",
 }, "|")).Match
 
+// isOneWord reports whether s has no blank and no control character.
+func isOneWord(s string) bool {
+	for i := 0; i < len(s); i++ {
+		if s[i] <= ' ' || s[i] == 0x7f {
+			return false
+		}
+	}
+	return true
+}
+
 // rewriteExecLine rewrites a "Exec=" line to use the wrapper path for snap application.
 func rewriteExecLine(s *snap.Info, desktopFile, line string) (string, error) {
+	// the desktop file name ends up unquoted in the Exec= value
+	if !isOneWord(desktopFile) {
+		return "", fmt.Errorf("desktop file name %q contains blanks or control characters", desktopFile)
+	}
 	env := fmt.Sprintf("env BAMF_DESKTOP_FILE_HINT=%s ", desktopFile)
 
 	cmd := strings.SplitN(line, "=", 2)[1]
